@@ -510,6 +510,22 @@ def aux_functions():
     s = src(AUX_H); out = []
     def common(r, body):
         body = X.strip_comments(body)
+        # R22e: a try block whose handler is nothing but `throw std::runtime_error(...)` keeps its meaning: every allocate<T>() in it may
+        # throw std::bad_alloc, the assignment does not happen and the function is left by the handler's exception (R31 form, applied below
+        # once R17 has rewritten the allocations). Blocks with other handlers (clean-up code, rethrow) are stripped as before.
+        marks = []
+        while True:
+            blank = X.blank_comments_and_strings(body); m = None
+            for m_ in re.finditer(r"(?<![A-Za-z0-9_])try\s*\{", blank):
+                b0 = blank.index("{", m_.start()); b1 = X.match_close(blank, b0, "{", "}")
+                mc = re.match(r"\s*catch\s*\(\s*\.\.\.\s*\)\s*\{", blank[b1 + 1:])
+                if not mc: raise ExtractionError("try without catch(...)")
+                c0 = b1 + 1 + mc.end() - 1; c1 = X.match_close(blank, c0, "{", "}")
+                if re.match(r"^\s*throw\s+std::runtime_error\([^;]*\);\s*$", body[c0 + 1:c1], re.S) and "try" not in blank[b0:b1]: m = (m_.start(), b0, b1, c1); break
+            if not m: break
+            k = len(marks); marks.append(k)
+            body = body[:m[0]] + "{/*VP_TRY%d*/" % k + body[m[1] + 1:m[2]] + "/*VP_END%d*/}" % k + body[m[3] + 1:]
+            r.counts["R22e_try_alloc_throws"] = r.counts.get("R22e_try_alloc_throws", 0) + 1
         body = strip_try_catch(r, body)
         body = r.sub("R7_throw", r"throw\s+std::runtime_error\(.*?\);", "{ vp_thrown = 1; return false; }", body, flags=re.S)
         body = r.sub("R1_address_deref", r"&\*", "", body)
@@ -522,6 +538,11 @@ def aux_functions():
         body = r.sub("R16_copy_n", r"std::copy_n\(([^,]+),([^,]+),([^;]+)\);", r"vp_copy(\1, (\1) + (\2), \3);", body)
         body = r.sub("R16_copy", r"std::copy\(", "vp_copy(", body)
         body = r.sub("R24_ctype", r"std::(isupper|isdigit|islower)\(", r"vp_\1(", body)
+        for k in marks:
+            a0 = body.index("/*VP_TRY%d*/" % k); a1 = body.index("/*VP_END%d*/" % k)
+            # std::bad_alloc caught by catch(...), whose handler throws the runtime_error: vp_thrown stays set, the function is left
+            inner = alloc_may_throw(r, body[a0:a1], "{ vp_thrown = 1; return false; }")
+            body = body[:a0] + inner + body[a1:]
         return body
     for name, hdr, extra in (("get_aux_value", "const char* get_aux_value(const char* key)", None),
                              ("remove_key", "bool remove_key(const char* key)", None),
